@@ -430,7 +430,7 @@ class GFA:
             )  # sorting the BO bucket by NO
 
         sorted_set_of_nodes = []
-        for bo in sorted(bo_ids):
+        for bo in sorted(bo_ids, key=int):
             for n_id in separate_bubbles[bo]:
                 sorted_set_of_nodes.append(n_id)
         return sorted_set_of_nodes
